@@ -1,3 +1,757 @@
-//! C19 (stub: no cases yet)
+//! C19 — Option/Result macros, try_!/try_opt!, min!/max! families vs std.
+//! (rebind_if_ok!/try_rebind! patterns are generated programs: lib/gen/c19.py.)
+//!
+//! Every macro argument that is an expression logs its evaluation into a thread-local
+//! event log (1 = `$e`, 2 = an eager `$v`, 10/20/30 + argument = the inline-closure /
+//! fn-path / closure-variable argument was called, 5 + argument = the code after try_! ran),
+//! so "calls the fallback exactly when std does" is equality of logs.
 use crate::common::*;
-pub fn run(_cfg: &Cfg, _out: &mut Out) {}
+use std::cell::{Cell, RefCell};
+use std::cmp::Ordering;
+
+use konst::{option, result};
+
+thread_local! {
+    static LOG: RefCell<Vec<i64>> = RefCell::new(Vec::new());
+    static K: Cell<i64> = Cell::new(0);
+    static SHAPE: Cell<i64> = Cell::new(0);
+}
+fn lg(x: i64) {
+    LOG.with(|l| l.borrow_mut().push(x));
+}
+fn kk() -> i64 {
+    K.with(|k| k.get())
+}
+fn take_log() -> String {
+    LOG.with(|l| {
+        let v = std::mem::take(&mut *l.borrow_mut());
+        show_list(v, |x| x.to_string())
+    })
+}
+
+pub trait Pay: Sized + std::fmt::Debug + 'static {
+    const NAME: &'static str;
+    fn mk(v: i64) -> Self;
+    fn get(&self) -> i64;
+}
+impl Pay for i64 {
+    const NAME: &'static str = "i64";
+    fn mk(v: i64) -> Self {
+        v
+    }
+    fn get(&self) -> i64 {
+        *self
+    }
+}
+/// a payload that is not `Copy` (the expansions must move it, never copy or re-use it)
+impl Pay for Box<i64> {
+    const NAME: &'static str = "box";
+    fn mk(v: i64) -> Self {
+        Box::new(v)
+    }
+    fn get(&self) -> i64 {
+        **self
+    }
+}
+
+fn sp<P: Pay>(p: &P) -> String {
+    p.get().to_string()
+}
+fn so<P: Pay>(o: &Option<P>) -> String {
+    match o {
+        Some(x) => format!("S({})", x.get()),
+        None => "N".to_string(),
+    }
+}
+fn sr<P: Pay>(r: &Result<P, P>) -> String {
+    match r {
+        Ok(x) => format!("O({})", x.get()),
+        Err(x) => format!("E({})", x.get()),
+    }
+}
+
+/// run `f` with an empty log; value (or PANIC) and the log it produced
+fn obs<R>(f: impl FnOnce() -> R, show: impl Fn(&R) -> String) -> String {
+    LOG.with(|l| l.borrow_mut().clear());
+    let r = std::panic::catch_unwind(std::panic::AssertUnwindSafe(f));
+    let v = match &r {
+        Ok(x) => show(x),
+        Err(_) => "PANIC".to_string(),
+    };
+    format!("v={};log={}", v, take_log())
+}
+
+// ------------------------------------------------------------------ closure bodies
+// (c = 10 inline closure, 20 fn path, 30 closure held in a variable)
+fn b_val<P: Pay>(c: i64) -> P {
+    lg(c);
+    P::mk(kk())
+}
+fn b_opt<P: Pay>(c: i64) -> Option<P> {
+    lg(c);
+    if kk() & 1 == 0 { Some(P::mk(kk())) } else { None }
+}
+fn b_map<P: Pay>(c: i64, x: P) -> P {
+    lg(c);
+    lg(x.get());
+    P::mk((x.get() >> 1) + kk())
+}
+fn b_and_then<P: Pay>(c: i64, x: P) -> Option<P> {
+    lg(c);
+    lg(x.get());
+    if x.get() & 1 == 0 { Some(P::mk((x.get() >> 1) + kk())) } else { None }
+}
+fn b_filter<P: Pay>(c: i64, x: &P) -> bool {
+    lg(c);
+    lg(x.get());
+    x.get() > kk()
+}
+fn b_res<P: Pay>(c: i64, x: P) -> Result<P, P> {
+    lg(c);
+    lg(x.get());
+    if x.get() & 1 == 0 { Ok(P::mk((x.get() >> 1) + kk())) } else { Err(P::mk((x.get() >> 1) - kk())) }
+}
+// the fn-path forms
+fn p_val<P: Pay>() -> P {
+    b_val(20)
+}
+fn p_opt<P: Pay>() -> Option<P> {
+    b_opt(20)
+}
+fn p_map<P: Pay>(x: P) -> P {
+    b_map(20, x)
+}
+fn p_and_then<P: Pay>(x: P) -> Option<P> {
+    b_and_then(20, x)
+}
+fn p_filter<P: Pay>(x: &P) -> bool {
+    b_filter(20, x)
+}
+fn p_res<P: Pay>(x: P) -> Result<P, P> {
+    b_res(20, x)
+}
+
+struct Emit<'a> {
+    out: &'a mut Out,
+    fam: &'static str,
+    ty: &'static str,
+    variant: &'static str,
+    x: i64,
+    k: i64,
+}
+impl<'a> Emit<'a> {
+    fn line(&mut self, mac: &str, form: &str, imp: String, std_: String) {
+        let args = format!("{} {} {} {} {} {}", self.ty, mac, form, self.variant, self.x, self.k);
+        let tag = format!("{}:{}:{}", mac, form, self.variant);
+        self.out.line(self.fam, &args, &imp, &std_, &tag);
+    }
+}
+
+// ------------------------------------------------------------------ Option
+fn opt_case<P: Pay>(out: &mut Out, variant: &'static str, x: i64, k: i64) {
+    K.with(|c| c.set(k));
+    let some = variant == "S";
+    let e = || -> Option<P> {
+        lg(1);
+        if some { Some(P::mk(x)) } else { None }
+    };
+    let mut em = Emit { out, fam: "c19.opt", ty: P::NAME, variant, x, k };
+
+    em.line("unwrap", "E", obs(|| option::unwrap!(e()), sp::<P>), obs(|| e().unwrap(), sp::<P>));
+
+    em.line(
+        "unwrap_or",
+        "E",
+        obs(|| option::unwrap_or!(e(), { lg(2); P::mk(kk()) }), sp::<P>),
+        obs(|| e().unwrap_or({ lg(2); P::mk(kk()) }), sp::<P>),
+    );
+
+    em.line(
+        "unwrap_or_else",
+        "C",
+        obs(|| option::unwrap_or_else!(e(), || b_val::<P>(10)), sp::<P>),
+        obs(|| e().unwrap_or_else(|| b_val::<P>(10)), sp::<P>),
+    );
+    em.line(
+        "unwrap_or_else",
+        "P",
+        obs(|| option::unwrap_or_else!(e(), p_val::<P>), sp::<P>),
+        obs(|| e().unwrap_or_else(p_val::<P>), sp::<P>),
+    );
+    em.line(
+        "unwrap_or_else",
+        "V",
+        obs(|| { let f = || b_val::<P>(30); option::unwrap_or_else!(e(), f) }, sp::<P>),
+        obs(|| { let f = || b_val::<P>(30); e().unwrap_or_else(f) }, sp::<P>),
+    );
+
+    em.line(
+        "ok_or",
+        "E",
+        obs(|| -> Result<P, P> { option::ok_or!(e(), { lg(2); P::mk(kk()) }) }, sr::<P>),
+        obs(|| -> Result<P, P> { e().ok_or({ lg(2); P::mk(kk()) }) }, sr::<P>),
+    );
+    em.line(
+        "ok_or_else",
+        "C",
+        obs(|| -> Result<P, P> { option::ok_or_else!(e(), || b_val::<P>(10)) }, sr::<P>),
+        obs(|| -> Result<P, P> { e().ok_or_else(|| b_val::<P>(10)) }, sr::<P>),
+    );
+    em.line(
+        "ok_or_else",
+        "P",
+        obs(|| -> Result<P, P> { option::ok_or_else!(e(), p_val::<P>) }, sr::<P>),
+        obs(|| -> Result<P, P> { e().ok_or_else(p_val::<P>) }, sr::<P>),
+    );
+    em.line(
+        "ok_or_else",
+        "V",
+        obs(|| -> Result<P, P> { let f = || b_val::<P>(30); option::ok_or_else!(e(), f) }, sr::<P>),
+        obs(|| -> Result<P, P> { let f = || b_val::<P>(30); e().ok_or_else(f) }, sr::<P>),
+    );
+
+    em.line(
+        "map",
+        "C",
+        obs(|| option::map!(e(), |v| b_map::<P>(10, v)), so::<P>),
+        obs(|| e().map(|v| b_map::<P>(10, v)), so::<P>),
+    );
+    em.line("map", "P", obs(|| option::map!(e(), p_map::<P>), so::<P>), obs(|| e().map(p_map::<P>), so::<P>));
+    em.line(
+        "map",
+        "V",
+        obs(|| { let f = |v: P| b_map::<P>(30, v); option::map!(e(), f) }, so::<P>),
+        obs(|| { let f = |v: P| b_map::<P>(30, v); e().map(f) }, so::<P>),
+    );
+
+    em.line(
+        "and_then",
+        "C",
+        obs(|| option::and_then!(e(), |v| b_and_then::<P>(10, v)), so::<P>),
+        obs(|| e().and_then(|v| b_and_then::<P>(10, v)), so::<P>),
+    );
+    em.line(
+        "and_then",
+        "P",
+        obs(|| option::and_then!(e(), p_and_then::<P>), so::<P>),
+        obs(|| e().and_then(p_and_then::<P>), so::<P>),
+    );
+    em.line(
+        "and_then",
+        "V",
+        obs(|| { let f = |v: P| b_and_then::<P>(30, v); option::and_then!(e(), f) }, so::<P>),
+        obs(|| { let f = |v: P| b_and_then::<P>(30, v); e().and_then(f) }, so::<P>),
+    );
+
+    em.line(
+        "or_else",
+        "C",
+        obs(|| option::or_else!(e(), || b_opt::<P>(10)), so::<P>),
+        obs(|| e().or_else(|| b_opt::<P>(10)), so::<P>),
+    );
+    em.line(
+        "or_else",
+        "P",
+        obs(|| option::or_else!(e(), p_opt::<P>), so::<P>),
+        obs(|| e().or_else(p_opt::<P>), so::<P>),
+    );
+    em.line(
+        "or_else",
+        "V",
+        obs(|| { let f = || b_opt::<P>(30); option::or_else!(e(), f) }, so::<P>),
+        obs(|| { let f = || b_opt::<P>(30); e().or_else(f) }, so::<P>),
+    );
+
+    em.line(
+        "filter",
+        "C",
+        obs(|| option::filter!(e(), |v| b_filter::<P>(10, v)), so::<P>),
+        obs(|| e().filter(|v| b_filter::<P>(10, v)), so::<P>),
+    );
+    em.line(
+        "filter",
+        "P",
+        obs(|| option::filter!(e(), p_filter::<P>), so::<P>),
+        obs(|| e().filter(p_filter::<P>), so::<P>),
+    );
+    em.line(
+        "filter",
+        "V",
+        obs(|| { let f = |v: &P| b_filter::<P>(30, v); option::filter!(e(), f) }, so::<P>),
+        obs(|| { let f = |v: &P| b_filter::<P>(30, v); e().filter(f) }, so::<P>),
+    );
+}
+
+fn opt_flatten_case<P: Pay>(out: &mut Out, variant: &'static str, x: i64) {
+    let e = || -> Option<Option<P>> {
+        lg(1);
+        match variant {
+            "SS" => Some(Some(P::mk(x))),
+            "SN" => Some(None),
+            _ => None,
+        }
+    };
+    let mut em = Emit { out, fam: "c19.opt", ty: P::NAME, variant, x, k: 0 };
+    em.line("flatten", "E", obs(|| option::flatten!(e()), so::<P>), obs(|| e().flatten(), so::<P>));
+}
+
+fn opt_copied_case(out: &mut Out, variant: &'static str, x: i64) {
+    let o: Option<i64> = if variant == "S" { Some(x) } else { None };
+    let mut em = Emit { out, fam: "c19.opt", ty: "i64", variant, x, k: 0 };
+    em.line(
+        "copied",
+        "E",
+        obs(|| option::copied(o.as_ref()), so::<i64>),
+        obs(|| o.as_ref().copied(), so::<i64>),
+    );
+}
+
+// ------------------------------------------------------------------ Result
+#[derive(Debug)]
+struct PErr<P>(P);
+impl<P> PErr<P> {
+    fn panic(&self) -> ! {
+        panic!("PErr")
+    }
+}
+
+fn res_case<P: Pay>(out: &mut Out, variant: &'static str, x: i64, k: i64) {
+    K.with(|c| c.set(k));
+    let ok = variant == "O";
+    let e = || -> Result<P, P> {
+        lg(1);
+        if ok { Ok(P::mk(x)) } else { Err(P::mk(x)) }
+    };
+    let mut em = Emit { out, fam: "c19.res", ty: P::NAME, variant, x, k };
+
+    em.line(
+        "unwrap_ctx",
+        "E",
+        obs(|| result::unwrap_ctx!(e().map_err(PErr)), sp::<P>),
+        obs(|| e().map_err(PErr).unwrap(), sp::<P>),
+    );
+    em.line(
+        "unwrap_or",
+        "E",
+        obs(|| result::unwrap_or!(e(), { lg(2); P::mk(kk()) }), sp::<P>),
+        obs(|| e().unwrap_or({ lg(2); P::mk(kk()) }), sp::<P>),
+    );
+
+    em.line(
+        "unwrap_or_else",
+        "C",
+        obs(|| result::unwrap_or_else!(e(), |v| b_map::<P>(10, v)), sp::<P>),
+        obs(|| e().unwrap_or_else(|v| b_map::<P>(10, v)), sp::<P>),
+    );
+    em.line(
+        "unwrap_or_else",
+        "P",
+        obs(|| result::unwrap_or_else!(e(), p_map::<P>), sp::<P>),
+        obs(|| e().unwrap_or_else(p_map::<P>), sp::<P>),
+    );
+    em.line(
+        "unwrap_or_else",
+        "V",
+        obs(|| { let f = |v: P| b_map::<P>(30, v); result::unwrap_or_else!(e(), f) }, sp::<P>),
+        obs(|| { let f = |v: P| b_map::<P>(30, v); e().unwrap_or_else(f) }, sp::<P>),
+    );
+
+    // std has no unwrap_err_or_else; it is map_or_else with the identity on the error
+    em.line(
+        "unwrap_err_or_else",
+        "C",
+        obs(|| result::unwrap_err_or_else!(e(), |v| b_map::<P>(10, v)), sp::<P>),
+        obs(|| e().map_or_else(|err| err, |v| b_map::<P>(10, v)), sp::<P>),
+    );
+    em.line(
+        "unwrap_err_or_else",
+        "P",
+        obs(|| result::unwrap_err_or_else!(e(), p_map::<P>), sp::<P>),
+        obs(|| e().map_or_else(|err| err, p_map::<P>), sp::<P>),
+    );
+    em.line(
+        "unwrap_err_or_else",
+        "V",
+        obs(|| { let f = |v: P| b_map::<P>(30, v); result::unwrap_err_or_else!(e(), f) }, sp::<P>),
+        obs(|| { let f = |v: P| b_map::<P>(30, v); e().map_or_else(|err| err, f) }, sp::<P>),
+    );
+
+    em.line("ok", "E", obs(|| result::ok!(e()), so::<P>), obs(|| e().ok(), so::<P>));
+    em.line("err", "E", obs(|| result::err!(e()), so::<P>), obs(|| e().err(), so::<P>));
+
+    em.line(
+        "map",
+        "C",
+        obs(|| result::map!(e(), |v| b_map::<P>(10, v)), sr::<P>),
+        obs(|| e().map(|v| b_map::<P>(10, v)), sr::<P>),
+    );
+    em.line("map", "P", obs(|| result::map!(e(), p_map::<P>), sr::<P>), obs(|| e().map(p_map::<P>), sr::<P>));
+    em.line(
+        "map",
+        "V",
+        obs(|| { let f = |v: P| b_map::<P>(30, v); result::map!(e(), f) }, sr::<P>),
+        obs(|| { let f = |v: P| b_map::<P>(30, v); e().map(f) }, sr::<P>),
+    );
+
+    em.line(
+        "map_err",
+        "C",
+        obs(|| result::map_err!(e(), |v| b_map::<P>(10, v)), sr::<P>),
+        obs(|| e().map_err(|v| b_map::<P>(10, v)), sr::<P>),
+    );
+    em.line(
+        "map_err",
+        "P",
+        obs(|| result::map_err!(e(), p_map::<P>), sr::<P>),
+        obs(|| e().map_err(p_map::<P>), sr::<P>),
+    );
+    em.line(
+        "map_err",
+        "V",
+        obs(|| { let f = |v: P| b_map::<P>(30, v); result::map_err!(e(), f) }, sr::<P>),
+        obs(|| { let f = |v: P| b_map::<P>(30, v); e().map_err(f) }, sr::<P>),
+    );
+
+    em.line(
+        "and_then",
+        "C",
+        obs(|| result::and_then!(e(), |v| b_res::<P>(10, v)), sr::<P>),
+        obs(|| e().and_then(|v| b_res::<P>(10, v)), sr::<P>),
+    );
+    em.line(
+        "and_then",
+        "P",
+        obs(|| result::and_then!(e(), p_res::<P>), sr::<P>),
+        obs(|| e().and_then(p_res::<P>), sr::<P>),
+    );
+    em.line(
+        "and_then",
+        "V",
+        obs(|| { let f = |v: P| b_res::<P>(30, v); result::and_then!(e(), f) }, sr::<P>),
+        obs(|| { let f = |v: P| b_res::<P>(30, v); e().and_then(f) }, sr::<P>),
+    );
+
+    em.line(
+        "or_else",
+        "C",
+        obs(|| result::or_else!(e(), |v| b_res::<P>(10, v)), sr::<P>),
+        obs(|| e().or_else(|v| b_res::<P>(10, v)), sr::<P>),
+    );
+    em.line(
+        "or_else",
+        "P",
+        obs(|| result::or_else!(e(), p_res::<P>), sr::<P>),
+        obs(|| e().or_else(p_res::<P>), sr::<P>),
+    );
+    em.line(
+        "or_else",
+        "V",
+        obs(|| { let f = |v: P| b_res::<P>(30, v); result::or_else!(e(), f) }, sr::<P>),
+        obs(|| { let f = |v: P| b_res::<P>(30, v); e().or_else(f) }, sr::<P>),
+    );
+}
+
+// ------------------------------------------------------------------ try_! / try_opt!
+fn rest<P: Pay>(x: P) -> P {
+    lg(5);
+    lg(x.get());
+    P::mk((x.get() >> 1) + kk())
+}
+fn me<P: Pay>(e: P) -> P {
+    lg(10);
+    lg(e.get());
+    P::mk((e.get() >> 1) - kk())
+}
+fn t_try<P: Pay>(r: Result<P, P>) -> Result<P, P> {
+    let x = konst::try_!({ lg(1); r });
+    Ok(rest(x))
+}
+fn s_try<P: Pay>(r: Result<P, P>) -> Result<P, P> {
+    let x = { lg(1); r }?;
+    Ok(rest(x))
+}
+fn t_try_me<P: Pay>(r: Result<P, P>) -> Result<P, P> {
+    let x = konst::try_!({ lg(1); r }, map_err = |e| me(e));
+    Ok(rest(x))
+}
+fn s_try_me<P: Pay>(r: Result<P, P>) -> Result<P, P> {
+    let x = { lg(1); r }.map_err(|e| me(e))?;
+    Ok(rest(x))
+}
+fn t_try_me0<P: Pay>(r: Result<P, P>) -> Result<P, P> {
+    let x = konst::try_!({ lg(1); r }, map_err = | | { lg(11); P::mk(kk()) });
+    Ok(rest(x))
+}
+fn s_try_me0<P: Pay>(r: Result<P, P>) -> Result<P, P> {
+    let x = { lg(1); r }.map_err(|_| { lg(11); P::mk(kk()) })?;
+    Ok(rest(x))
+}
+fn t_try_opt<P: Pay>(o: Option<P>) -> Option<P> {
+    let x = konst::try_opt!({ lg(1); o });
+    Some(rest(x))
+}
+fn s_try_opt<P: Pay>(o: Option<P>) -> Option<P> {
+    let x = { lg(1); o }?;
+    Some(rest(x))
+}
+
+fn try_case<P: Pay>(out: &mut Out, ok: bool, x: i64, k: i64) {
+    K.with(|c| c.set(k));
+    let r = || -> Result<P, P> { if ok { Ok(P::mk(x)) } else { Err(P::mk(x)) } };
+    let o = || -> Option<P> { if ok { Some(P::mk(x)) } else { None } };
+    {
+        let mut em = Emit { out, fam: "c19.try", ty: P::NAME, variant: if ok { "O" } else { "E" }, x, k };
+        em.line("try", "E", obs(|| t_try(r()), sr::<P>), obs(|| s_try(r()), sr::<P>));
+        em.line("try_map_err", "C", obs(|| t_try_me(r()), sr::<P>), obs(|| s_try_me(r()), sr::<P>));
+        em.line("try_map_err", "Z", obs(|| t_try_me0(r()), sr::<P>), obs(|| s_try_me0(r()), sr::<P>));
+    }
+    let mut em = Emit { out, fam: "c19.try", ty: P::NAME, variant: if ok { "S" } else { "N" }, x, k };
+    em.line("try_opt", "E", obs(|| t_try_opt(o()), so::<P>), obs(|| s_try_opt(o()), so::<P>));
+}
+
+// ------------------------------------------------------------------ min / max
+const fn shape_key(shape: i64, k: i64) -> i64 {
+    match shape {
+        0 => k,
+        1 => !k,
+        2 => k.rem_euclid(3),
+        _ => 0,
+    }
+}
+
+/// a value with an identity (`id`) that its ordering (by shaped key only) cannot see
+#[derive(Debug, Clone, Copy)]
+struct KV {
+    key: i64,
+    id: u8,
+}
+fn side(v: KV) -> &'static str {
+    if v.id == 1 { "L" } else { "R" }
+}
+fn cmp_kv(shape: i64, a: &KV, b: &KV) -> Ordering {
+    shape_key(shape, a.key).cmp(&shape_key(shape, b.key))
+}
+fn cmp_fn(a: &KV, b: &KV) -> Ordering {
+    cmp_kv(SHAPE.with(|s| s.get()), a, b)
+}
+fn key_fn(a: &KV) -> i64 {
+    shape_key(SHAPE.with(|s| s.get()), a.key)
+}
+
+macro_rules! keyed_type {
+    ($name:ident, $shape:expr) => {
+        #[derive(Debug, Clone, Copy)]
+        struct $name {
+            key: i64,
+            id: u8,
+        }
+        impl konst::cmp::ConstCmp for $name {
+            type Kind = konst::cmp::IsNotStdKind;
+        }
+        impl $name {
+            const fn const_cmp(&self, o: &Self) -> Ordering {
+                konst::const_cmp!(shape_key($shape, self.key), shape_key($shape, o.key))
+            }
+        }
+        impl PartialEq for $name {
+            fn eq(&self, o: &Self) -> bool {
+                self.cmp(o) == Ordering::Equal
+            }
+        }
+        impl Eq for $name {}
+        impl PartialOrd for $name {
+            fn partial_cmp(&self, o: &Self) -> Option<Ordering> {
+                Some(self.cmp(o))
+            }
+        }
+        impl Ord for $name {
+            fn cmp(&self, o: &Self) -> Ordering {
+                shape_key($shape, self.key).cmp(&shape_key($shape, o.key))
+            }
+        }
+    };
+}
+keyed_type!(K0, 0);
+keyed_type!(K1, 1);
+keyed_type!(K2, 2);
+keyed_type!(K3, 3);
+
+macro_rules! plain_minmax {
+    ($out:ident, $ty:ident, $shape:expr, $kl:expr, $kr:expr, $tag:expr) => {{
+        let l = $ty { key: $kl, id: 1 };
+        let r = $ty { key: $kr, id: 2 };
+        let sd = |v: $ty| if v.id == 1 { "L" } else { "R" };
+        let args = |m: &str| format!("{} M {} {} {}", m, $shape, $kl, $kr);
+        $out.line("c19.minmax", &args("min"), sd(konst::min!(l, r)), sd(std::cmp::min(l, r)), &format!("min:M:{}", $tag));
+        $out.line("c19.minmax", &args("max"), sd(konst::max!(l, r)), sd(std::cmp::max(l, r)), &format!("max:M:{}", $tag));
+    }};
+}
+
+fn minmax_case(out: &mut Out, shape: i64, kl: i64, kr: i64) {
+    SHAPE.with(|s| s.set(shape));
+    let tag = match shape_key(shape, kl).cmp(&shape_key(shape, kr)) {
+        Ordering::Less => "lt",
+        Ordering::Equal => "tie",
+        Ordering::Greater => "gt",
+    };
+    match shape {
+        0 => plain_minmax!(out, K0, shape, kl, kr, tag),
+        1 => plain_minmax!(out, K1, shape, kl, kr, tag),
+        2 => plain_minmax!(out, K2, shape, kl, kr, tag),
+        _ => plain_minmax!(out, K3, shape, kl, kr, tag),
+    }
+    let l = KV { key: kl, id: 1 };
+    let r = KV { key: kr, id: 2 };
+    let mut emit = |mac: &str, form: &str, imp: KV, std_: KV| {
+        out.line(
+            "c19.minmax",
+            &format!("{} {} {} {} {}", mac, form, shape, kl, kr),
+            side(imp),
+            side(std_),
+            &format!("{}:{}:{}", mac, form, tag),
+        );
+    };
+    // ---- min_by! / max_by!: every accepted comparator form
+    emit("min_by", "C", konst::min_by!(l, r, |a, b| cmp_kv(shape, a, b)), std::cmp::min_by(l, r, |a, b| cmp_kv(shape, a, b)));
+    emit("max_by", "C", konst::max_by!(l, r, |a, b| cmp_kv(shape, a, b)), std::cmp::max_by(l, r, |a, b| cmp_kv(shape, a, b)));
+    emit("min_by", "T", konst::min_by!(l, r, |a: &KV, b: &KV| cmp_kv(shape, a, b)), std::cmp::min_by(l, r, |a: &KV, b: &KV| cmp_kv(shape, a, b)));
+    emit("max_by", "T", konst::max_by!(l, r, |a: &KV, b: &KV| cmp_kv(shape, a, b)), std::cmp::max_by(l, r, |a: &KV, b: &KV| cmp_kv(shape, a, b)));
+    emit(
+        "min_by",
+        "D",
+        konst::min_by!(l, r, |&KV { key: ka, .. }, &KV { key: kb, .. }| shape_key(shape, ka).cmp(&shape_key(shape, kb))),
+        std::cmp::min_by(l, r, |&KV { key: ka, .. }, &KV { key: kb, .. }| shape_key(shape, ka).cmp(&shape_key(shape, kb))),
+    );
+    emit(
+        "max_by",
+        "D",
+        konst::max_by!(l, r, |&KV { key: ka, .. }, &KV { key: kb, .. }| shape_key(shape, ka).cmp(&shape_key(shape, kb))),
+        std::cmp::max_by(l, r, |&KV { key: ka, .. }, &KV { key: kb, .. }| shape_key(shape, ka).cmp(&shape_key(shape, kb))),
+    );
+    emit("min_by", "R", konst::min_by!(l, r, |a, b| -> Ordering { cmp_kv(shape, a, b) }), std::cmp::min_by(l, r, |a, b| -> Ordering { cmp_kv(shape, a, b) }));
+    emit("max_by", "R", konst::max_by!(l, r, |a, b| -> Ordering { cmp_kv(shape, a, b) }), std::cmp::max_by(l, r, |a, b| -> Ordering { cmp_kv(shape, a, b) }));
+    emit("min_by", "P", konst::min_by!(l, r, cmp_fn), std::cmp::min_by(l, r, cmp_fn));
+    emit("max_by", "P", konst::max_by!(l, r, cmp_fn), std::cmp::max_by(l, r, cmp_fn));
+    {
+        let f = |a: &KV, b: &KV| cmp_kv(shape, a, b);
+        emit("min_by", "V", konst::min_by!(l, r, f), std::cmp::min_by(l, r, f));
+        emit("max_by", "V", konst::max_by!(l, r, f), std::cmp::max_by(l, r, f));
+    }
+    // ---- min_by_key! / max_by_key!
+    emit("min_by_key", "C", konst::min_by_key!(l, r, |a| shape_key(shape, a.key)), std::cmp::min_by_key(l, r, |a| shape_key(shape, a.key)));
+    emit("max_by_key", "C", konst::max_by_key!(l, r, |a| shape_key(shape, a.key)), std::cmp::max_by_key(l, r, |a| shape_key(shape, a.key)));
+    emit("min_by_key", "T", konst::min_by_key!(l, r, |a: &KV| shape_key(shape, a.key)), std::cmp::min_by_key(l, r, |a: &KV| shape_key(shape, a.key)));
+    emit("max_by_key", "T", konst::max_by_key!(l, r, |a: &KV| shape_key(shape, a.key)), std::cmp::max_by_key(l, r, |a: &KV| shape_key(shape, a.key)));
+    emit("min_by_key", "D", konst::min_by_key!(l, r, |&KV { key: ka, .. }| shape_key(shape, ka)), std::cmp::min_by_key(l, r, |&KV { key: ka, .. }| shape_key(shape, ka)));
+    emit("max_by_key", "D", konst::max_by_key!(l, r, |&KV { key: ka, .. }| shape_key(shape, ka)), std::cmp::max_by_key(l, r, |&KV { key: ka, .. }| shape_key(shape, ka)));
+    emit("min_by_key", "R", konst::min_by_key!(l, r, |a| -> i64 { shape_key(shape, a.key) }), std::cmp::min_by_key(l, r, |a| -> i64 { shape_key(shape, a.key) }));
+    emit("max_by_key", "R", konst::max_by_key!(l, r, |a| -> i64 { shape_key(shape, a.key) }), std::cmp::max_by_key(l, r, |a| -> i64 { shape_key(shape, a.key) }));
+    emit("min_by_key", "P", konst::min_by_key!(l, r, key_fn), std::cmp::min_by_key(l, r, key_fn));
+    emit("max_by_key", "P", konst::max_by_key!(l, r, key_fn), std::cmp::max_by_key(l, r, key_fn));
+    {
+        let f = |a: &KV| shape_key(shape, a.key);
+        emit("min_by_key", "V", konst::min_by_key!(l, r, f), std::cmp::min_by_key(l, r, f));
+        emit("max_by_key", "V", konst::max_by_key!(l, r, f), std::cmp::max_by_key(l, r, f));
+    }
+}
+
+/// min!/max! directly on primitive types (identity is not observable: values only)
+macro_rules! prim_minmax {
+    ($out:ident, $ty:ty, $vals:expr) => {{
+        let vals: &[$ty] = $vals;
+        for &a in vals {
+            for &b in vals {
+                let tag = if a == b { "tie" } else if a < b { "lt" } else { "gt" };
+                let args = |m: &str| format!("{} {} {} {}", m, stringify!($ty), a, b);
+                $out.line("c19.minmaxprim", &args("min"), &konst::min!(a, b).to_string(), &std::cmp::min(a, b).to_string(), &format!("min:{}", tag));
+                $out.line("c19.minmaxprim", &args("max"), &konst::max!(a, b).to_string(), &std::cmp::max(a, b).to_string(), &format!("max:{}", tag));
+            }
+        }
+    }};
+}
+
+pub fn run(cfg: &Cfg, out: &mut Out) {
+    let xs: Vec<i64> = if cfg.thorough {
+        let mut v = vec![i64::MIN, i64::MIN + 1, i64::MIN + 2, i64::MAX - 2, i64::MAX - 1, i64::MAX];
+        v.extend(-8..=8);
+        v
+    } else {
+        vec![i64::MIN, i64::MIN + 1, -3, -2, -1, 0, 1, 2, 3, i64::MAX - 1, i64::MAX]
+    };
+    let ks: Vec<i64> = if cfg.thorough { (-4..=4).collect() } else { vec![-2, -1, 0, 1, 2] };
+
+    // ---- Option / Result / try: both variants x boundary payloads x every argument form
+    for &k in &ks {
+        opt_case::<i64>(out, "N", 0, k);
+        opt_case::<Box<i64>>(out, "N", 0, k);
+        try_case::<i64>(out, false, 0, k);
+        for &x in &xs {
+            opt_case::<i64>(out, "S", x, k);
+            opt_case::<Box<i64>>(out, "S", x, k);
+            res_case::<i64>(out, "O", x, k);
+            res_case::<i64>(out, "E", x, k);
+            res_case::<Box<i64>>(out, "O", x, k);
+            res_case::<Box<i64>>(out, "E", x, k);
+            try_case::<i64>(out, true, x, k);
+            try_case::<i64>(out, false, x, k);
+            try_case::<Box<i64>>(out, true, x, k);
+            try_case::<Box<i64>>(out, false, x, k);
+        }
+    }
+    opt_flatten_case::<i64>(out, "N", 0);
+    opt_flatten_case::<i64>(out, "SN", 0);
+    opt_flatten_case::<Box<i64>>(out, "N", 0);
+    opt_flatten_case::<Box<i64>>(out, "SN", 0);
+    opt_copied_case(out, "N", 0);
+    for &x in &xs {
+        opt_flatten_case::<i64>(out, "SS", x);
+        opt_flatten_case::<Box<i64>>(out, "SS", x);
+        opt_copied_case(out, "S", x);
+    }
+
+    // ---- min / max: all pairs of keys x 4 key shapes (identity, reversed, mod 3, constant)
+    let keys: Vec<i64> = if cfg.thorough {
+        let mut v = vec![i64::MIN, i64::MIN + 1, i64::MAX - 1, i64::MAX];
+        v.extend(-9..=9);
+        v
+    } else {
+        vec![i64::MIN, -4, -3, -2, -1, 0, 1, 2, 3, 4, i64::MAX]
+    };
+    for shape in 0..4 {
+        for &kl in &keys {
+            for &kr in &keys {
+                minmax_case(out, shape, kl, kr);
+            }
+        }
+    }
+    prim_minmax!(out, i64, &[i64::MIN, i64::MIN + 1, -1, 0, 1, i64::MAX - 1, i64::MAX]);
+    prim_minmax!(out, u64, &[0, 1, 2, u64::MAX - 1, u64::MAX]);
+    prim_minmax!(out, i8, &[i8::MIN, -1, 0, 1, i8::MAX]);
+    prim_minmax!(out, u8, &[0, 1, 127, 128, 255]);
+    prim_minmax!(out, i32, &[i32::MIN, -1, 0, 1, i32::MAX]);
+    prim_minmax!(out, u32, &[0, 1, u32::MAX]);
+    prim_minmax!(out, usize, &[0, 1, usize::MAX]);
+    prim_minmax!(out, i128, &[i128::MIN, -1, 0, 1, i128::MAX]);
+    prim_minmax!(out, u128, &[0, 1, u128::MAX]);
+
+    // ---- seeded random stream
+    let mut rng = Rng::new(cfg.seed ^ 0xC19);
+    let n = if cfg.thorough { 3000 } else { 300 };
+    for _ in 0..n {
+        let x = match rng.below(3) {
+            0 => rng.next() as i64,
+            1 => (rng.below(2001) as i64) - 1000,
+            _ => if rng.below(2) == 0 { i64::MAX - rng.below(50) as i64 } else { i64::MIN + rng.below(50) as i64 },
+        };
+        let k = (rng.below(9) as i64) - 4;
+        match rng.below(4) {
+            0 => opt_case::<i64>(out, "S", x, k),
+            1 => res_case::<i64>(out, if rng.below(2) == 0 { "O" } else { "E" }, x, k),
+            2 => try_case::<Box<i64>>(out, rng.below(2) == 0, x, k),
+            _ => {
+                let y = if rng.below(3) == 0 { x } else { (rng.below(41) as i64) - 20 };
+                minmax_case(out, rng.below(4) as i64, x, y);
+            }
+        }
+    }
+}
